@@ -3,10 +3,14 @@
 Oracle on the implementation: one IR object handed to every call of a sequence over {emit.class_, emit.function,
 emit.argparse_function, emit.docstring} (each with options drawn per IR), all sequences with repetition up to
 length 3 (quick) / 4 (thorough); the artefact of every call is compared with the artefact the same call gives on
-a fresh deep copy (ast.dump of the node / the docstring text; an exception counts as its kind).
+a fresh deep copy (ast.dump of the node / the docstring text; an exception counts as its kind), and the IR object is
+compared before/after every call ORDER-SENSITIVELY (items of `params`, of every parameter and of `returns` in iteration
+order, recursively): a call that only reorders the caller's mapping is a write.  IR strata include a `...kwargs`
+parameter that is first / in the middle (as parse.class_ and parse.docstring produce), not only last.
 Second part: the three parsers applied repeatedly to one shared AST node (and emitters applied to the IRs they
 return, whose `_internal` bodies alias the tree): ast.dump of the tree before/after, and every result against
-the result on a fresh copy.
+the result on a fresh copy; the IR a parser returned is then shared by the emitters (docstring included), each compared
+with the same call on a fresh copy of that IR and the IR compared order-sensitively around each call.
 Failures are classified by finding_class_C13 (coq/model/C13Spec.v) through the driver."""
 import ast
 import collections
@@ -98,8 +102,83 @@ def snapshot(ir):
         return repr(ir)
 
 
+def strict_snapshot(o):
+    """order-SENSITIVE picture of a value: mapping items in iteration order (recursively), sequence kind, scalar type.
+    Two IRs that are == as dicts but list their parameters (or a parameter's fields) in a different order differ here:
+    every emitter walks `params` in iteration order, so key order is part of what a later call sees"""
+    if isinstance(o, dict):
+        return [type(o).__name__, [[repr(k), strict_snapshot(v)] for k, v in o.items()]]
+    if isinstance(o, (list, tuple)):
+        return [type(o).__name__, [strict_snapshot(x) for x in o]]
+    if isinstance(o, ast.AST):
+        return ["ast", ast.dump(o)]
+    return [type(o).__name__, repr(o)]
+
+
+def _first_change(a, b, path="ir"):
+    """where two strict snapshots differ (for the report)"""
+    if a == b:
+        return None
+    if a[0] != b[0] or not isinstance(a[1], list) or not isinstance(b[1], list):
+        return "%s: %s -> %s" % (path, str(a)[:120], str(b)[:120])
+    if a[0] in ("dict", "OrderedDict"):
+        ka, kb = [x[0] for x in a[1]], [x[0] for x in b[1]]
+        if ka != kb:
+            return "%s: keys %s -> %s" % (path, ka, kb)
+        for (k, x), (_, y) in zip(a[1], b[1]):
+            r = _first_change(x, y, "%s[%s]" % (path, k))
+            if r:
+                return r
+        return "%s changed" % path
+    if len(a[1]) != len(b[1]):
+        return "%s: length %d -> %d" % (path, len(a[1]), len(b[1]))
+    for n, (x, y) in enumerate(zip(a[1], b[1])):
+        r = _first_change(x, y, "%s[%d]" % (path, n))
+        if r:
+            return r
+    return "%s changed" % path
+
+
+KWARGS_NAMES = ["kwargs", "data_loader_kwargs", "model_kwargs", "loader_kwargs", "optimizer_kwargs", "fit_kwargs"]
+
+
+def _is_kwargs_name(n):
+    return n.endswith("kwargs")
+
+
+def place_kwargs(rng, params, tags):
+    """stratum `kwargs:first|middle|several`: a `...kwargs` parameter that is NOT the last entry of `params`, as
+    parse.class_ (attributes are in no particular order) and parse.docstring (documented in any order) produce.
+    gen_ir only ever appends it at the end."""
+    names = [n for n in params if not _is_kwargs_name(n)]
+    if not names:
+        return params
+    kw = [(n, params[n]) for n in params if _is_kwargs_name(n)]
+    if not kw or rng.random() < 0.25:
+        free = [n for n in KWARGS_NAMES if n not in params]
+        kw.append((rng.choice(free), rng.choice([
+            {"doc": "pass this as arguments to the loader function", "typ": "Optional[dict]", "default": "```(None)```"},
+            {"doc": "extra keyword arguments.", "typ": "dict"},
+            {"doc": "forwarded as they are", "typ": "Optional[dict]", "default": "```(None)```"},
+            {"typ": "dict", "doc": "keyword arguments"}])))
+    items = [(n, params[n]) for n in names]
+    where = rng.choice(["first", "middle", "middle"]) if len(names) > 1 else "first"
+    for k, e in enumerate(kw):
+        if k > 0:
+            pos = rng.randrange(0, len(items))          # a second one anywhere before the last entry
+        elif where == "first":
+            pos = 0
+        else:
+            pos = rng.randrange(1, len(items))
+        items.insert(pos, e)
+    tags.append("kwargs:" + ("several" if len(kw) > 1 else where))
+    return OrderedDict(items)
+
+
 def gen_ir_spec(rng):
     ir, tags = gen_ir.gen_ir(rng, clean=rng.random() < 0.4)
+    if rng.random() < 0.3:
+        ir["params"] = place_kwargs(rng, ir["params"], tags)
     spec = {"name": "f", "type": "static", "doc": ir["doc"],
             "params": OrderedDict((k, dict(v)) for k, v in ir["params"].items()),
             "returns": None if ir["returns"] is None else OrderedDict((k, dict(v)) for k, v in ir["returns"].items())}
@@ -115,23 +194,31 @@ def explore(spec, ops, maxlen):
     """-> (evaluations, failures[list of dict(seq, td_mutated, what)])"""
     ir0 = fam_emitast.materialise_ir(spec)
     fresh = [apply_op(o, copy.deepcopy(ir0)) for o in ops]
-    failures, evals = [], [0]
+    failures, evals, wrote = [], [0], []
 
     def rec(prefix, state, td_mut, failed):
         if len(prefix) == maxlen:
             return
         for j, o in enumerate(ops):
             ir = copy.deepcopy(state)
-            before = snapshot(ir)
+            before, sbefore = snapshot(ir), strict_snapshot(ir)
             art = apply_op(o, ir)
             evals[0] += 1
-            changed = snapshot(ir) != before
+            safter = strict_snapshot(ir)
+            changed = snapshot(ir) != before or safter != sbefore
             seq = prefix + [j]
             bad = art != fresh[j]
             if bad and not failed:
                 failures.append({"seq": seq, "td_mutated": td_mut,
                                  "what": "call %d (%s) of the sequence differs from the same call on a fresh copy"
                                          % (len(seq), o["k"])})
+            elif changed and not failed and not wrote:
+                # the call left its mark on the caller's IR (compared order-sensitively, nested mappings included):
+                # what a later conversion of this object sees is no longer what a fresh copy gives it
+                wrote.append(1)
+                failures.append({"seq": seq, "td_mutated": td_mut or o["k"] == "docstring", "ir_written": True,
+                                 "what": "call %d (%s) of the sequence wrote into the shared IR: %s"
+                                         % (len(seq), o["k"], _first_change(sbefore, safter))})
             rec(seq, ir, td_mut or (changed and o["k"] == "docstring"), failed or bad)
     rec([], ir0, False, False)
     return evals[0], failures
@@ -167,9 +254,13 @@ def parser_checks(rng, spec, maxlen):
         parsers = {"class": [("class_", m.parse.class_)],
                    "function": [("function", m.parse.function)],
                    "argparse": [("argparse_ast", m.parse.argparse_ast), ("function", m.parse.function)]}[kind]
-        emitters = [("emit.class_", lambda ir: m.emit.class_(ir, emit_call=True)),
+        emitters = [("emit.docstring", lambda ir: m.emit.docstring(ir)),
+                    ("emit.class_", lambda ir: m.emit.class_(ir, emit_call=True)),
                     ("emit.function", lambda ir: m.emit.function(ir, ir.get("name") or "f", ir.get("type") or "static")),
-                    ("emit.argparse", lambda ir: m.emit.argparse_function(ir, function_name=ir.get("name")))]
+                    ("emit.argparse", lambda ir: m.emit.argparse_function(ir, function_name=ir.get("name"))),
+                    ("emit.docstring", lambda ir: m.emit.docstring(ir))]
+        if rng.random() < 0.5:
+            emitters = emitters[1:]
         dump0 = ast.dump(node)
 
         def run(f, arg):
@@ -203,12 +294,28 @@ def parser_checks(rng, spec, maxlen):
                         break
                     if isinstance(r, dict) and step == len(seq) - 1:
                         # emit from the IR whose carried body aliases the shared tree; twice, then parse again
-                        for en, ef in emitters:
+                        pristine = copy.deepcopy(r)
+                        for ek, (en, ef) in enumerate(emitters):
+                            sb = strict_snapshot(r)
                             a1 = show(run(ef, r))
                             evals += 1
                             if ast.dump(shared) != dump0:
                                 failures.append({"case": {"kind": kind, "seq": [parsers[x][0] for x in seq] + [en]},
                                                  "what": "%s altered the tree its IR's body aliases" % en, "class": None})
+                                break
+                            # the IR a parser returned, shared by the emitters (what sync does with its truth)
+                            if a1 != show(run(ef, copy.deepcopy(pristine))):
+                                failures.append({"case": {"kind": kind, "src": ast.unparse(node),
+                                                          "seq": [parsers[x][0] for x in seq] + [e[0] for e in emitters[:ek + 1]]},
+                                                 "what": "%s on the IR parse.%s returned, after the emitters before it, differs from the same call on a fresh copy of that IR" % (en, n),
+                                                 "class": None})
+                                break
+                            sa = strict_snapshot(r)
+                            if sa != sb:
+                                failures.append({"case": {"kind": kind, "src": ast.unparse(node),
+                                                          "seq": [parsers[x][0] for x in seq] + [en]},
+                                                 "what": "%s wrote into the IR parse.%s returned: %s" % (en, n, _first_change(sb, sa)),
+                                                 "class": None})
                                 break
                         r2 = show(run(f, shared))
                         if r2 != fresh_p[n]:
@@ -220,14 +327,22 @@ def parser_checks(rng, spec, maxlen):
 
 def check_case(case):
     if "seq" in case and "spec" in case:
-        ir0 = fam_emitast.materialise_ir(case["spec"])
+        spec = dict(case["spec"])
+        if case.get("param_order") is not None:          # replays are written with sorted keys: the order is kept apart
+            spec["params"] = OrderedDict((n, spec["params"][n]) for n in case["param_order"])
+        ir0 = fam_emitast.materialise_ir(spec)
         ops = case["ops"]
         ir = copy.deepcopy(ir0)
         for j in case["seq"][:-1]:
             apply_op(ops[j], ir)
         last = ops[case["seq"][-1]]
+        sbefore = strict_snapshot(ir)
         a, b = apply_op(last, ir), apply_op(last, copy.deepcopy(ir0))
-        return (a == b), ("" if a == b else "last call of the sequence differs from the same call on a fresh copy")
+        if a != b:
+            return False, "last call of the sequence differs from the same call on a fresh copy"
+        if case.get("ir_written") and strict_snapshot(ir) != sbefore:
+            return False, "last call of the sequence wrote into the shared IR: %s" % _first_change(sbefore, strict_snapshot(ir))
+        return True, ""
     return True, ""
 
 
@@ -246,6 +361,9 @@ def oracle(rng, tier):
         if len(spec["params"]) >= 2 or spec.get("returns") or "_internal" in spec:
             seen.add(key)
         hist["ir:%s:%s" % ("returns" if spec.get("returns") else "no-returns", "body" if "_internal" in spec else "no-body")] += 1
+        for t in tags:
+            if t.startswith("kwargs"):
+                hist["ir:" + t] += 1
         if not fs:
             hist["ir-without-interference"] += 1
         for f in fs:
@@ -260,7 +378,9 @@ def oracle(rng, tier):
         hist["fails:" + (cls or "in-guard")] += 1
         per_class_kept[cls] += 1
         if cls is None or per_class_kept[cls] <= 25:
-            failures.append({"case": {"spec": spec, "ops": ops, "seq": f["seq"], "td_mutated": f["td_mutated"]},
+            failures.append({"case": dict({"spec": spec, "param_order": list(spec["params"]), "ops": ops, "seq": f["seq"],
+                                           "td_mutated": f["td_mutated"]},
+                                          **({"ir_written": True} if f.get("ir_written") else {})),
                              "what": f["what"], "class": cls})
     # parsers on a shared tree
     n_p = 12 if tier == "quick" else 60
@@ -278,7 +398,9 @@ def oracle(rng, tier):
         "distinct_nontrivial": len(seen),
         "rule": "IRs (with/without return entry, with/without carried body) x all call sequences with repetition up to "
                 "length %d over {class_, function, argparse_function, docstring}; non-trivial = distinct IR with >= 2 "
-                "parameters, a return entry or a body; plus parser sequences on shared trees" % maxlen,
+                "parameters, a return entry or a body; the IR is compared before/after every call order-sensitively "
+                "(key order of params / of each parameter / of returns); IR strata with a ...kwargs parameter that is "
+                "not last; plus parser sequences on shared trees, the parsed IR shared by all four emitters" % maxlen,
         "failures": failures,
         "histogram": dict(hist),
         "samples": [],
